@@ -182,7 +182,7 @@ CHECK = {
     "property": "C19",
     "props": "Props/C19.v",
     "theorems": ["c19_spec_refl", "c19_spec_sym", "c19_spec_trans", "c19_dispatch", "c19_name_eq",
-                 "c19_char", "c19_total", "c19_laws", "c19_octetwise", "c19_set", "c19_insert",
+                 "c19_char", "c19_total", "c19_laws", "c19_octetwise", "c19_set", "c19_set_meaning", "c19_insert",
                  "c19_sym_refuted_prefix"],
     "allowed_axioms": [],
     "correspondence": {"impl_bin": "impl_c19", "extract": "Extract/ExC19.v", "driver": "run_c19.ml"},
